@@ -95,10 +95,24 @@ Proof.
 Qed.
 
 Lemma readEntry_in_file : forall b i, 0 <= i < numEntries (Some b) ->
-  readEntry (Some b) i = firstn entBytes (skipn (Z.to_nat (i * pgEntSize)) b).
+  readEntry (Some b) i = firstn entBytes (skipn (Z.to_nat (i * pgEntSize)) b) /\
+  length (readEntry (Some b) i) = entBytes.
 Proof.
   intros b i H. apply entry_in_file in H. unfold fileLen in H. unfold readEntry.
-  destruct ((0 <=? i * pgEntSize) && (i * pgEntSize + pgEntSize <=? Z.of_nat (length b))) eqn:E; [reflexivity|lia].
+  destruct (i * pgEntSize <? 0) eqn:E; [lia|].
+  assert (L : length (firstn entBytes (skipn (Z.to_nat (i * pgEntSize)) b)) = entBytes).
+  { rewrite firstn_length, skipn_length. rewrite pgEntSize_val in *. change entBytes with 16%nat. lia. }
+  rewrite L, Nat.eqb_refl. split; [reflexivity|exact L].
+Qed.
+
+(** a read that does not fit into the file gives the zero entry *)
+Lemma readEntry_past_end : forall b i, Z.of_nat (length b) < i * pgEntSize + pgEntSize ->
+  readEntry (Some b) i = zeroEntry.
+Proof.
+  intros b i H. unfold readEntry. destruct (i * pgEntSize <? 0) eqn:E; [reflexivity|].
+  destruct (length (firstn entBytes (skipn (Z.to_nat (i * pgEntSize)) b)) =? entBytes)%nat eqn:L; [|reflexivity].
+  apply Nat.eqb_eq in L. rewrite firstn_length, skipn_length in L.
+  rewrite pgEntSize_val in *. change entBytes with 16%nat in L. lia.
 Qed.
 
 (** * Exactness on a sorted file *)
